@@ -1,6 +1,8 @@
 """Per-property texts for MANIFEST.json."""
 NOTE = ("Trusted: rustc nightly's MIR construction/type resolution as dumped by /verif/driver; the rule "
-        "implementations in /verif/lsv. Analysed: lucid-suggest-core's non-test library code (dev profile, "
+        "implementations in /verif/lsv, including the fact normalisation run before the rules (DESIGN.md §4 A10: "
+        "helper / closure-call expansion, for_each desugaring, jump threading; A12: alignment of renamed items with "
+        "the reference names). Analysed: lucid-suggest-core's non-test library code (dev profile, "
         "overflow checks on). The runtime-quantified remainder listed in DESIGN.md §5 is not decided.")
 
 NOT_APPLICABLE = {
@@ -10,13 +12,13 @@ NOT_APPLICABLE = {
 }
 
 TEXTS = {
-    "C03": {"technique": "static analysis: gate constants located by data-flow in MIR, CFG polarity, rational/IEEE bound check",
+    "C03": {"technique": "static analysis: gate constants located by data-flow in MIR, CFG polarity, rational/IEEE bound check, region-wise symbolic evaluation of the length-gate formula (A11)",
             "text": "Decides necessary constants/shapes only: Jaccard gate accepts 1/2, length and DL gates accept 0, "
                     "gram iterator starts at width 1, index writer/reader share one gram generator, candidate cap >= limit, "
                     "record side clipped to the typed length for an unfinished word. A violated obligation names the "
                     "gate/constructor and the prefix query that is lost; stemmer/scan-order behaviour is not decided.",
             "note": NOTE},
-    "C04": {"technique": "static analysis: gate/cost constants by data-flow role in MIR, worst-case obligations in IEEE doubles",
+    "C04": {"technique": "static analysis: gate/cost constants by data-flow role in MIR, worst-case obligations in IEEE doubles, region-wise symbolic evaluation of the length-gate formula (A11)",
             "text": "Decides necessary constants only (n=5 worst cases): length gate accepts 1-5/6, Jaccard gate accepts 1/2, "
                     "DL gate accepts c/5 for every edit-cost constant c, all costs <= 1, tolerance of prefix-pair lengths >= 1; "
                     "gate shapes are confirmed first (fail closed). The DP itself and the shared-gram argument are not decided.",
@@ -25,7 +27,7 @@ TEXTS = {
             "text": "Decides one clause: the prefix-pair length tolerance is <= 1, so a highlighted span cannot exceed the "
                     "typed stretch by more than one character. The 'no unrelated hits' and exact-prefix clauses are not decided.",
             "note": NOTE},
-    "C14": {"technique": "static analysis: gate constants and per-class cost table read from MIR (match arms), fallback-chain shape",
+    "C14": {"technique": "static analysis: gate constants and per-class cost table read from MIR (match arms), class fallback decided as a decision table by abstract interpretation (A13), region-wise length-gate formula (A11)",
             "text": "Decides necessary constants/shapes only (L=3 worst case): length gate accepts 1/4, cost(NotAlpha)/4 passes the "
                     "DL gate, Jaccard gate accepts 1/2, non-alphabetic characters without a language class fall back to NotAlpha. "
                     "Join/split offset arithmetic is not decided.",
